@@ -481,8 +481,8 @@ func rlaneMain(argv []string) int {
 
 // runLaneR drives the lane-R workers and confirms / minimises what they report.
 func runLaneR(f *commonFlags, scratch string) (map[string]any, []*Violation, int) {
-	cases := int64(2400)
-	budget := 45 * time.Second
+	cases := int64(8000)
+	budget := 90 * time.Second
 	if f.tier == "thorough" {
 		cases, budget = 1<<40, 5*time.Minute
 	}
